@@ -37,6 +37,8 @@ aliases, containers filled with append, callees of the package and receivers
 narrowed by isinstance; this reaches the post-treatments and plot representers
 that are only called through getattr / self.post dispatch. Suppressed when
 every caller in the package passes a template it has just built.
+ITER-STORE - no one-shot iterator (reversed, map, zip, generator expression)
+is handed to a Test constructor for a parameter the class stores.
 DET - no evaluate() implementation reaches (call graph, depth 3) a clock,
 random source or process identity.
 Not decided: effects hidden in library calls that are not in the mutator
@@ -68,6 +70,7 @@ def check(ctx):
                                     else 4)
     ctx.run(purity.check_pure, analyzer)
     ctx.run(purity.check_data_inplace)
+    ctx.run(purity.check_iter_store)
     ctx.run(purity.check_det, depth=5 if ctx.tier == 'thorough' else 3)
 
 
@@ -296,4 +299,14 @@ def variants(program):
         _prepend('TestResultEqual.__bool__',
                  'self._verdict_cache = None'),
         note='new private attribute: undecided, never an alarm')
+    add('seed-task-results-stored-as-a-one-shot-iterator', 'mutant', STATS,
+        lambda tree: replace_first(
+            find_func(tree, 'test_stats'),
+            lambda n: isinstance(n, ast.keyword) and n.arg ==
+            'task_results' and isinstance(n.value, ast.Name),
+            lambda n: ast.keyword(arg='task_results', value=parse_expr(
+                'reversed(task_results)'))),
+        {'ITER-STORE'},
+        note='seed C13-r3-2: the second evaluate() sees no task at all')
+
     return out
